@@ -197,6 +197,11 @@ func (se *specEnv) ident(name string) SVal {
 		}
 		return SVal{tv, nil}
 	}
+	if al := f.ctx.eng.identAlias[f.top().ctx.fnKey]; al != nil {
+		if to, ok := al[name]; ok {
+			name = to
+		}
+	}
 	if strings.HasPrefix(name, "$") && name != "$i" && name != "$outer" {
 		if ac := f.letRegister(name[1:]); ac != nil {
 			if ac.LetT == nil {
